@@ -19,6 +19,7 @@ func runC02(p *core.Prog, r *core.Result) {
 		"R2.2 source files are compared by content hash: the verdict 'up to date' is returned exactly on equality of the recorded sum and the sum of the current contents; no modification time is consulted",
 		"R2.3 loading a target rewrites the record it has just read with every decision-relevant field (all but the documentation) unchanged, field by field over the record type: a load cannot drop the stamp dependents compare",
 		"R2.6 the verdict 'a dependency is out of date' is produced only where a dependency has no recorded stamp, changed in this build, or has a stamp different from the recorded one - nowhere else (no comparison of counts, no extra condition merged in after the loop)",
+		"R2.11 a target's own verdict (Target.upToDate()) is taken behind the evaluation of its dependencies: a generated source file, whose dependency is its generator, is hashed only after the generator ran in this build (otherwise its record carries the sum of the previous contents and the rebuild of the unchanged tree re-executes its consumers)",
 		"R2.7 the stamp a loaded target reports to its dependents (targetInfo.stamp) is a persisted field of its record, verbatim (the combined stamp, or the plain data of a record written before combined stamps existed) - never a value recomputed at load, which differs from what dependents stored whenever the formula or the record format has changed since",
 		"R2.5 the current environment of a function (functionEnv) is not computed from anything reachable from loadFunction: it is taken only after every module has finished executing, so it is complete",
 		"R2.8 what a function's stamp is computed from is fixed when loading ends: a host value whose contents are written while targets run (a cache) is neither pickled by content by the encoder nor read by the host pickler - otherwise the stamp recorded by one build differs from the one the next, unchanged, build computes before anything ran (shared with C08 R8.8)",
@@ -95,6 +96,9 @@ func runC02(p *core.Prog, r *core.Result) {
 
 	// ---- R2.6 dependencies are declared out of date only for a reason
 	checkStalenessHasReason(p, r)
+
+	// ---- R2.11 the own verdict is taken behind the dependencies
+	checkVerdictAfterDependencies(p, r, "R2.11")
 
 	// ---- R2.3
 	checkLoadRewritesRead(p, r, "R2.3")
